@@ -2,7 +2,7 @@
 // line protocol (model side: lean/Driver/C13.lean).
 //
 // A case starts with one configuration line
-//     cfg dary  <arity 1..8> <rev 0|1>
+//     cfg dary  <arity 1..8> <rev 0|1> [u32|mk|str]   (key type: integer, move-sensitive struct, std::string)
 //     cfg addr  <arity 1..8> <rev 0|1> <u32|u8>
 //     cfg radix <radix 2|4|8|16|64> <i8|u8|i16|u32|i64|u64>
 // followed by operation lines.  Keys of the d-ary heaps are 0..U-1 (U = 48); their order is an
@@ -16,7 +16,9 @@
 // addressable:     additionally  remove k | contains k | upd k p (prio[k]=p; update(k))
 // Answer = "<ret> ; h=<heap_ array>" (+ " ; hd=<handles_ array, x = not_present>").
 //
-// radix heap ops:  push k | emplace k | top | pop | swap | peak | size | empty | clear | getb k
+// radix heap ops:  push k | emplace k | pushb k | emplaceb k (hint overloads push_to_bucket / emplace_in_bucket
+//                  with idx = get_bucket / get_bucket_key) | top | pop | swap | peak | size | empty | clear | getb k | drain
+//                  (the data payload is a move-sensitive struct)
 // Answer = "<ret> ; n=<size_> lim=<insertion_limit_ (rank)> cur=<current_bucket_> ;
 //           b=<idx>:<key>/<payload>,..|.. ; m=<idx>:<mins_ rank>,.. ; f=<set bits of filled_>"
 // The payload of the i-th inserted element of a case is i.
